@@ -84,7 +84,10 @@ SPEC = {
                  "with keep-alives, one per request without; every operation of the profile arrives as one request."),
         "note": ("Servers are Go httptest servers (HTTP/1.1, optional TLS; TLS + h2 for the http2 gun); the answer log is a temporary file "
                  "of the real file system (lib/answlog opens it with os.Create), removed after the case; configured header names are unique; entries carry no "
-                 "Connection header; the server never closes idle connections during a case. Over HTTP/2 a Cookie header with an "
+                 "Connection header; the server never closes idle connections during a case. A surplus connection "
+                 "under keep-alives (and only that failure kind) must show again when the same case is run twice more: net/http's "
+                 "transport dials a second connection by itself when a starved read loop has not yet handed the first one back; seen "
+                 "once in three runs it is counted inconclusive_machine_load, not a pass. Over HTTP/2 a Cookie header with an "
                  "empty value may be absent (the protocol sends one field per cookie pair). With a target given by name and "
                  "dial.dns-cache on, the one connection the pool opens and closes without a request to resolve the name "
                  "(netutil.LookupReachable) is not counted as an instance's connection. The connect gun (undocumented) is only "
